@@ -265,6 +265,38 @@ func runC18(c *Collector, r *Rng, thorough bool) {
 				func() string { return res(ck.MarshalCBOR()) },
 			}})
 		}
+		// --- values whose protected bucket names no algorithm (nil map, empty map): verification has nothing to check
+		// the verifier's algorithm against - with external data it proceeds, without it fails - and writes nothing ---
+		for hi, mkH := range []func() cose.Headers{
+			func() cose.Headers { return cose.Headers{} },
+			func() cose.Headers { return cose.Headers{Protected: cose.ProtectedHeader{}} },
+			func() cose.Headers {
+				return cose.Headers{Protected: cose.ProtectedHeader{int64(4): []byte("kid")}, Unprotected: cose.UnprotectedHeader{}}
+			},
+		} {
+			parent := &cose.Sign1Message{Headers: cose.Headers{Protected: cose.ProtectedHeader{cose.HeaderLabelAlgorithm: k.alg}}, Payload: []byte("payload"), Signature: []byte{1, 2, 3}}
+			m0 := &cose.Sign1Message{Headers: mkH(), Payload: []byte("payload"), Signature: []byte{1, 2, 3}}
+			cs0 := &cose.Countersignature{Headers: mkH(), Signature: []byte{1, 2, 3}}
+			sg0 := &cose.Signature{Headers: mkH(), Signature: []byte{1, 2, 3}}
+			sm0 := &cose.SignMessage{Headers: mkH(), Payload: []byte("payload"), Signatures: []*cose.Signature{{Headers: mkH(), Signature: []byte{1, 2, 3}}}}
+			vals = append(vals, shared{fmt.Sprintf("without-alg-%d/%s", hi, k.alg), func() string {
+				return oSign1(parent) + oSign1(m0) + oSigv((*cose.Signature)(cs0)) + oSigv(sg0) + oSignMsg(sm0)
+			}, []func() string{
+				func() string { return res(nil, m0.Verify(nil, vf)) },
+				func() string { return res(nil, m0.Verify([]byte("x"), vf)) },
+				func() string { return res(nil, (*cose.UntaggedSign1Message)(m0).Verify(nil, vf)) },
+				func() string { return res(nil, cs0.Verify(vf, parent, nil)) },
+				func() string { return res(nil, cs0.Verify(vf, parent, []byte("x"))) },
+				func() string { return res(nil, sg0.Verify(vf, []byte{0x40}, []byte("p"), nil)) },
+				func() string { return res(nil, sg0.Verify(vf, []byte{0x40}, []byte("p"), []byte("x"))) },
+				func() string { return res(nil, sm0.Verify(nil, vf)) },
+				func() string { return res(nil, sm0.Verify([]byte("x"), vf)) },
+				func() string { return res(nil, cose.VerifyCountersign0(vf, m0, nil, []byte{1, 2, 3})) },
+				func() string { return res(m0.MarshalCBOR()) },
+				func() string { return res(cs0.MarshalCBOR()) },
+				func() string { return res(sm0.MarshalCBOR()) },
+			}})
+		}
 		for _, sv := range vals {
 			before := sv.snap()
 			want := make([]string, len(sv.ops))
@@ -738,6 +770,12 @@ func c19Edited(kind string, in []byte) string {
 	last.Width = pickW(uint64(len(last.Str)), -1)
 	in2 := w.Ser()
 	editH := func(h *cose.Headers) {
+		for _, v := range h.Protected {
+			polluteDeep(v, 0)
+		}
+		for _, v := range h.Unprotected {
+			polluteDeep(v, 0)
+		}
 		if h.Protected != nil {
 			h.Protected[polluteLabel] = "edited"
 			delete(h.Protected, int64(1))
@@ -747,6 +785,9 @@ func c19Edited(kind string, in []byte) string {
 			delete(h.Unprotected, int64(4))
 		}
 	}
+	// what the second message decodes to before anything else has happened
+	beforeD := decodeKind(kind, append([]byte{}, in2...))
+	before := beforeD.value
 	var used, fresh string
 	var e1, e2 error
 	switch kind {
@@ -793,6 +834,9 @@ func c19Edited(kind string, in []byte) string {
 	if (e1 == nil) != (e2 == nil) {
 		return fmt.Sprintf("a message with the same header bytes as the one decoded before (whose decoded maps the application had edited) is decoded with err=%v into the used variable and err=%v into a fresh one", e1, e2)
 	}
+	if e1 == nil && beforeD.err == nil && !beforeD.paniced && before != "" && fresh != before {
+		return "a message decodes to " + trunc(before, 300) + "; after another message with the same header bytes was decoded and its decoded values were edited by the application, the same bytes decode (into a fresh variable) to " + trunc(fresh, 300)
+	}
 	if e1 == nil && used != fresh {
 		return "decoding a message with the same header bytes as the previous one into a variable whose decoded maps had been edited gives " + trunc(used, 300) + ", a fresh decode gives " + trunc(fresh, 300)
 	}
@@ -817,15 +861,7 @@ func polluteBytes(bs ...[]byte) {
 	}
 }
 
-func polluteHeaders(h *cose.Headers) {
-	if h.Protected != nil {
-		h.Protected[polluteLabel] = "written by the application"
-	}
-	if h.Unprotected != nil {
-		h.Unprotected[polluteLabel] = "written by the application"
-	}
-	polluteBytes(h.RawProtected, h.RawUnprotected)
-}
+func polluteHeaders(h *cose.Headers) { polluteHeadersDepth(h, 0) }
 
 func newDest(kind string) *dest {
 	switch kind {
@@ -898,3 +934,52 @@ type hookVerifier struct {
 
 func (h *hookVerifier) Algorithm() cose.Algorithm        { return h.alg }
 func (h *hookVerifier) Verify(content, sig []byte) error { return h.f() }
+
+// polluteDeep writes into everything reachable from a decoded header value that Go lets a holder write into: the octets of
+// byte strings, the elements of arrays, the entries of maps, the buckets and signature of nested countersignatures
+func polluteDeep(v any, depth int) {
+	if depth > 6 {
+		return
+	}
+	switch t := v.(type) {
+	case []byte:
+		polluteBytes(t)
+	case []any:
+		for i := range t {
+			polluteDeep(t[i], depth+1)
+			if _, isBytes := t[i].([]byte); !isBytes {
+				t[i] = "written by the application"
+			}
+		}
+	case map[any]any:
+		for _, e := range t {
+			polluteDeep(e, depth+1)
+		}
+		t[polluteLabel] = "written by the application"
+	case *cose.Countersignature:
+		if t != nil {
+			polluteHeadersDepth(&t.Headers, depth+1)
+			polluteBytes(t.Signature)
+		}
+	case []*cose.Countersignature:
+		for _, e := range t {
+			polluteDeep(e, depth+1)
+		}
+	}
+}
+
+func polluteHeadersDepth(h *cose.Headers, depth int) {
+	for _, v := range h.Protected {
+		polluteDeep(v, depth)
+	}
+	for _, v := range h.Unprotected {
+		polluteDeep(v, depth)
+	}
+	if h.Protected != nil {
+		h.Protected[polluteLabel] = "written by the application"
+	}
+	if h.Unprotected != nil {
+		h.Unprotected[polluteLabel] = "written by the application"
+	}
+	polluteBytes(h.RawProtected, h.RawUnprotected)
+}
